@@ -184,6 +184,28 @@ func setViaOps(ss []rstep, rng *mon.RNG, runBias int) {
 
 func runRacing(t *testing.T, idx int, rng *mon.RNG) {
 	ctl, workers, hold := genRacing(rng)
+	chain := pickChain(rng)
+	if chain != "none" {
+		blocky := func(ss []rstep) {
+			for i := range ss {
+				if ss[i].Kind == "add" && rng.Bool() {
+					ss[i].Spec.Block = true
+				}
+				if ss[i].Kind == "entries" && rng.Chance(1, 4) && len(ss[i].Ops) == 0 {
+					ss[i].Kind = "release"
+				}
+				for k := range ss[i].Ops {
+					if ss[i].Ops[k].Kind == "add" && rng.Bool() {
+						ss[i].Ops[k].Spec.Block = true
+					}
+				}
+			}
+		}
+		blocky(ctl)
+		for _, ws := range workers {
+			blocky(ws)
+		}
+	}
 	z := pickZone(rng)
 	if z.set() && rng.Bool() {
 		for _, c := range zones {
@@ -206,9 +228,9 @@ func runRacing(t *testing.T, idx int, rng *mon.RNG) {
 	for g, ws := range workers {
 		line(g+1, ws)
 	}
-	desc := fmt.Sprintf("racing loc=%s phase=%v yield=%d hold=%v %s", z.name, phase, yield, hold, strings.Join(hs, " | "))
+	desc := fmt.Sprintf("racing loc=%s chain=%s phase=%v yield=%d hold=%v %s", z.name, chain, phase, yield, hold, strings.Join(hs, " | "))
 	rec.Begin(idx, desc)
-	w := &world{idx: idx, mode: "racing", zone: z, hold: hold, history: hs, yield: yield, yieldRng: mon.NewRNG("c05-yield", idx)}
+	w := &world{idx: idx, mode: "racing", zone: z, chain: chain, hold: hold, history: hs, yield: yield, yieldRng: mon.NewRNG("c05-yield", idx)}
 	res := bubble(t, w, func() {
 		time.Sleep(phase)
 		base := time.Now()
@@ -266,6 +288,9 @@ func runRacing(t *testing.T, idx int, rng *mon.RNG) {
 	})
 	if res.OK() && !w.viol.Load() {
 		newJudge(w).run()
+	}
+	if res.OK() && !w.viol.Load() {
+		w.checkChain("racing")
 	}
 	finishCase(idx, w, res, desc)
 }
